@@ -9,6 +9,8 @@ From AV Require Import Multipart.Scan.
 From AV Require Import Multipart.Parser.
 From AV Require Import Multipart.ScanProofs.
 From AV Require Import Multipart.ParserProofs.
+From AV Require Import Run.RunC15.
+From AV Require Import Multipart.Roundtrip.
 
 (* The parse buffer never exceeds buffer_limit: for every header oracle, every code variant,
    every upstream script, every limit and every sequence of polls by the consumer
@@ -159,3 +161,73 @@ Example C15_example :
   clean bnd c /\ arrived acts = stream /\
   fst (scan_exec bnd acts (pb_new [] 65536) []) = (c, Some IEnd).
 Proof. cbv zeta. split; [apply cleanb_clean; reflexivity|]. split; reflexivity. Qed.
+
+(* ==================== the whole parser (Inner::poll machine + consumer loop) ====================
+
+   A body is  "--" boundary, then for every part  CRLF headers content CRLF "--" boundary,
+   then a last line and anything after it ([Roundtrip.body]).  A part [fld] carries its header
+   block (ending in the first CRLF CRLF, handed to the oracle [hdr], which answers with the
+   part's name and Content-Length), and its content.  [fld_ok]: the oracle accepts the block; a
+   part WITHOUT Content-Length has a content that is [clean] (any bytes — CR, LF, dashes,
+   look-alikes — but no CRLF--boundary inside, and outside the F7b class); a part WITH
+   Content-Length has ARBITRARY content (it may contain the delimiter itself).
+   The consumer is the loop of Run/RunC15.v ([drive]: poll the Multipart, read each Field to its
+   end, re-poll after Pending only when woken); [norm] drops the Pending entries and joins
+   adjacent data chunks of the transcript; [chunks script] = the bytes the script delivers. *)
+
+(* C15_roundtrip_any_chunking: for every header oracle, boundary (non-empty, no LF), valid part
+   list (0..n parts), epilogue, and EVERY upstream script — any chunking of the body, empty
+   chunks, Pending anywhere — the parser delivers exactly the rendered parts (name,
+   Content-Length, exact content bytes), each finished, then the clean end; never an error,
+   never a hang (the run is complete within |script| + |body| + 1 polls).
+   Hypotheses that remain: no preamble before the first boundary; buffer_limit larger than
+   the body (no Overflow on the way); no stream error event. *)
+Theorem C15_roundtrip_any_chunking :
+  forall (hdr : bytes -> hres) (bnd : bytes) (fs : list fld) (epilogue : bytes)
+         (script : list ev) (limit : N) (fuel : nat),
+  bnd <> [] -> ~ In 10 bnd -> Forall (fld_ok hdr bnd) fs -> no_err script ->
+  chunks script = body bnd close_line epilogue fs ->
+  lenN (chunks script) < limit ->
+  (length script + length (chunks script) < fuel)%nat ->
+  norm (drive hdr false false false None fuel (mp_new bnd script limit) AtMp) = exp_fields TEnd fs.
+Proof. exact roundtrip_any_chunking. Qed.
+
+(* C15_segmentation (whole parser): two scripts that carry the same valid body — however
+   differently cut and interleaved with Pending — deliver the same parts. *)
+Theorem C15_segmentation :
+  forall hdr bnd fs epilogue s1 s2 l1 l2 f1 f2,
+  bnd <> [] -> ~ In 10 bnd -> Forall (fld_ok hdr bnd) fs ->
+  no_err s1 -> no_err s2 ->
+  chunks s1 = body bnd close_line epilogue fs -> chunks s2 = chunks s1 ->
+  lenN (chunks s1) < l1 -> lenN (chunks s1) < l2 ->
+  (length s1 + length (chunks s1) < f1)%nat -> (length s2 + length (chunks s1) < f2)%nat ->
+  norm (drive hdr false false false None f1 (mp_new bnd s1 l1) AtMp) =
+  norm (drive hdr false false false None f2 (mp_new bnd s2 l2) AtMp).
+Proof. exact segmentation_independent. Qed.
+
+(* C15_no_silent_merge (whole parser): if the line that follows the last delimiter
+   CRLF "--" boundary is malformed (neither CRLF = another part, nor "--" CRLF = end), every
+   part before it is still delivered exactly — no field spans a delimiter, nothing is merged —
+   and the run ends with Err(BoundaryMissing), under every chunking. *)
+Theorem C15_no_silent_merge :
+  forall hdr bnd fs (x rest : bytes) script limit fuel,
+  bnd <> [] -> ~ In 10 bnd -> Forall (fld_ok hdr bnd) fs -> fs <> [] -> no_err script ->
+  ~ In 10 x -> x ++ [10] <> CRLF -> x ++ [10] <> DD ++ CRLF ->
+  chunks script = body bnd x rest fs ->
+  lenN (chunks script) < limit ->
+  (length script + length (chunks script) < fuel)%nat ->
+  norm (drive hdr false false false None fuel (mp_new bnd script limit) AtMp)
+  = exp_fields (TErr EBoundary) fs.
+Proof. exact malformed_delimiter_is_error. Qed.
+
+(* non-vacuity of the three: boundary "ab", parts  x CR LF - - a  (scanned), empty (scanned),
+   and CR LF - - a b CR LF with Content-Length 8; one byte per chunk, Pending after each; the
+   hypotheses hold and the model run gives exactly the parts *)
+Example C15_roundtrip_example :
+  Forall (fld_ok ex_hdr [97;98]) ex_fs /\ no_err ex_script /\
+  chunks ex_script = body [97;98] close_line [101] ex_fs /\
+  norm (drive ex_hdr false false false None 1000 (mp_new [97;98] ex_script 65536) AtMp)
+  = [TField (Some [7]) None; TData [120;13;10;45;45;97]; TFieldEnd;
+     TField (Some [6]) None; TFieldEnd;
+     TField (Some [7]) (Some 8); TData [13;10;45;45;97;98;13;10]; TFieldEnd; TEnd].
+Proof. exact roundtrip_example. Qed.
